@@ -703,25 +703,66 @@ fn one_op<B: BmCtl>(w: &mut GmWorld<B>, tracked: bool, step: usize) -> Step {
                 _ => cx().a(size as u32) as usize,
             };
             let n = gen_nlen(size - off.min(size));
-            let writing = cx().a(2) == 0;
+            let form = cx().a(6); // 0 write, 1 read, 2 write_obj::<u64>, 3 store::<u32>, 4 read_exact_volatile_from(&[u8]), 5 load::<u32>
+            let off = if form == 3 || form == 5 { off & !3 } else { off };
+            let n = match form {
+                2 => 8,
+                3 | 5 => 4,
+                _ => n,
+            };
             let base = w.regs[i].base;
             let gaddr = base + off as u64;
-            st.kind = if writing { "region.write" } else { "region.read" };
-            st.desc = format!("find_region({:#x}).{}(buf[{}], {})", base, if writing { "write" } else { "read" }, n, off);
+            let names = ["region.write", "region.read", "region.write_obj", "region.store", "region.read_exact_volatile_from", "region.load"];
+            st.kind = names[form as usize];
+            st.desc = format!("find_region({:#x}).{}(len {}, {})", base, &st.kind[7..], n, off);
             let data = compl(w, gaddr, n);
             let mut rbuf = vec![0xAAu8; n];
             let reg = w.gm.find_region(GuestAddress(base)).unwrap();
-            st.got = if writing { go_n(catch(|| reg.write(&data, MemoryRegionAddress(off as u64)))) } else { go_n(catch(|| reg.read(&mut rbuf, MemoryRegionAddress(off as u64)))) };
+            let at = MemoryRegionAddress(off as u64);
             let k = n.min(size - off.min(size));
-            st.exp = Some(if off >= size { GO::Backend } else { GO::Count(k) });
-            if off < size {
-                if writing {
-                    w.model_write(gaddr, &data[..k]);
-                    st.wrote.push((gaddr, k));
-                    st.effect = Effect::Write;
-                } else if st.got == GO::Count(k) && rbuf[..k] != w.model_read(gaddr, k)[..] {
-                    st.got = GO::Other("wrong data".into());
+            let aligned = (w.ptrs[i] as usize + off) % 4 == 0;
+            match form {
+                0 => {
+                    st.got = go_n(catch(|| reg.write(&data, at)));
+                    st.exp = Some(if off >= size { GO::Backend } else { GO::Count(k) });
                 }
+                1 => {
+                    st.got = go_n(catch(|| reg.read(&mut rbuf, at)));
+                    st.exp = Some(if off >= size { GO::Backend } else { GO::Count(k) });
+                }
+                2 => {
+                    st.got = go_u(catch(|| reg.write_obj(mk::<u64>(&data), at)));
+                    st.exp = Some(if off >= size { GO::Backend } else if k < 8 { GO::Partial(8, k) } else { GO::Unit });
+                }
+                3 => {
+                    st.got = go_u(catch(|| reg.store(mk::<u32>(&data), at, Ordering::SeqCst)));
+                    st.exp = Some(if off + 4 > size || !aligned { GO::Backend } else { GO::Unit });
+                }
+                4 => {
+                    let mut src = &data[..];
+                    st.got = go_u(catch(|| reg.read_exact_volatile_from(at, &mut src, n)));
+                    st.exp = Some(if off.checked_add(n).map(|e| e > size).unwrap_or(true) { GO::Backend } else { GO::Unit });
+                }
+                _ => {
+                    st.got = go_b(catch(|| reg.load::<u32>(at, Ordering::SeqCst).map(|v| bytes_of(&v))));
+                    st.exp = Some(if off + 4 > size || !aligned { GO::Backend } else { GO::Bytes(w.model_read(gaddr, 4)) });
+                }
+            }
+            // what the model says was written
+            let wrote = match form {
+                0 if off < size => k,
+                2 if off < size => k,
+                3 if off + 4 <= size && aligned => 4,
+                4 if off + n <= size => n,
+                _ => 0,
+            };
+            if wrote > 0 {
+                w.model_write(gaddr, &data[..wrote]);
+                st.wrote.push((gaddr, wrote));
+                st.effect = if form == 2 && k < 8 { Effect::PartialFail } else { Effect::Write };
+            }
+            if form == 1 && off < size && st.got == GO::Count(k) && rbuf[..k] != w.model_read(gaddr, k)[..] {
+                st.got = GO::Other("wrong data".into());
             }
         }
         14 => {
